@@ -204,6 +204,7 @@ bad_nOpts:
       return ReportBadFormat();
   }
   else {         ///////////////// TEXT FORMAT ///////////////
+    bool at_line_start = true;   // previous chunk ended a line
     for(;;) {    ///////////////// SOLVE MESSAGE /////////////
       if (!fgets(buf, sizeof(buf), f)) {
         return ReportEarlyEof();
@@ -214,8 +215,11 @@ bad_nOpts:
           *++se = 0;
           break;
         }
-      if (*buf == '\n')
+      // An empty line ends the message - but not the newline
+      // left over from a line longer than the buffer
+      if (*buf == '\n' && at_line_start)
         break;
+      at_line_start = (se > buf && se[-1] == '\n');
       n1 = se - buf;
       b1 = buf;
       if (buf[0] == '\b' && bs) {
@@ -228,6 +232,7 @@ bad_nOpts:
           continue;
       }
       solve_msg_.append(b1, n1);
+      bs = 0;      // only backspaces starting the message are omitted
     }
     while((j = getc(f)) == '\n' || j == '\r');
     if (j != 'O')     ////////// Check for Options //////////
